@@ -56,6 +56,18 @@ CHECKS["C19"] = dict(
     technique="who-may-write/value-origin queries + dominance checks + bounded-write dataflow",
     design="3/C19")
 
+CHECKS["C03"] = dict(
+    text="Decides structural necessary conditions on every path of every messaging send op (tcp, tls, ux/uxf; helpers inlined): a send that "
+         "fails before the message is accepted has touched neither counters nor socket state; success is returned only after acceptance; "
+         "after acceptance -1 is returned only with errno known not to be EAGAIN; from_app counters move only after acceptance; every errno "
+         "test sees the errno of the failing call (logging is derived errno-transparent from its save/restore bracket on every run); the "
+         "length validated is the length sent (no unguarded narrowing); UX send is one send(2) with MSG_NOSIGNAL|MSG_EOR; and blocking "
+         "xcm_send does not report failure for an accepted message because its wait failed (known finding K3). Not decided: exactly-once "
+         "delivery (needs both endpoints and the schedule).",
+    note=TRUSTED + " send(2) on SOCK_SEQPACKET is all-or-nothing; mbuf_set copies into XCM-owned storage.",
+    technique="path-sensitive typestate exploration with inlining, errno-source tracking, value-range dataflow",
+    design="3/C03")
+
 NOT_APPLICABLE = {}
 
 
